@@ -52,6 +52,11 @@ def sources_for(prop):
         return [('H-HIST', lambda G: G['prop'] == 'C18', None), ('H-EVAL', lambda G: G['prop'] == 'C18', None)]
     if prop == 'C09':
         return [('H-EVAL', lambda G: G['prop'] == 'C09', None), ('H-RESUME', lambda G: G['prop'] == 'C09', None)]
+    if prop == 'C03':
+        # a job skipped although what it was built from has changed also shows across evaluations, when a record left by an
+        # interrupted evaluation vouches for it: the H-IND chains whose wrong result belongs to a job that was *skipped*
+        return [('H-EVAL', lambda G: G['prop'] == 'C03', None),
+                ('H-IND', lambda G: G['prop'] == 'C01' and any(e.get('c01', {}).get('executed') is False for e in G['examples']), None)]
     if prop in HEVAL_PROPS or prop == 'C20':
         return [('H-EVAL', lambda G: G['prop'] == prop, None)]
     if prop == 'C14':
@@ -95,13 +100,21 @@ def run_property(prop, tier, seed, mod, bins, dt, log):
             for exm in g['examples'][:2]:
                 cprop = g['prop'] if reprop == 'group' else prop
                 if g['prop'] == 'C01':
+                    if prop == 'C03' and exm.get('c01', {}).get('executed') is not False:
+                        continue
                     ok, why, native = confirm_c01(mod, bins, exm)
                 elif g['prop'] == 'C19':
                     ok, why, native = confirm_size(mod, bins, exm)
                 elif exm.get('chain'):
-                    ok, why, native = confirm_chain(mod, bins, exm, g['prop'])
+                    ok, why, native = confirm_chain(mod, bins, exm, 'C12' if family == 'H-EVAL2' else g['prop'])
                 elif g['prop'] == 'C14':
                     ok, why, native = confirm_pair(mod, bins, exm)
+                elif 'did not terminate within the step budget' in exm['what']:
+                    sc = S.Scenario.from_json(exm['scenario'])
+                    if native_hangs(bins, sc):
+                        ok, why, native = True, 'reproduced', ['native replay of the scenario did not finish within 40 s (the MIR executor exceeded its per-event block budget)']
+                    else:
+                        ok, why, native = False, 'the real crate finishes the scenario', []
                 else:
                     sc = S.Scenario.from_json(exm['scenario'])
                     ok, why, native = CK.confirm(mod, bins, sc, cprop)
@@ -280,6 +293,17 @@ def confirm_c01(mod, bins, exm):
     return True, 'reproduced', native
 
 
+def native_hangs(bins, sc, timeout=40):
+    """True if the real crate does not get through the scenario within `timeout` seconds (the scenarios here take
+    milliseconds when the engine terminates)"""
+    import subprocess
+    try:
+        S.run_native(bins[0], [sc], timeout=timeout)
+        return False
+    except subprocess.TimeoutExpired:
+        return True
+
+
 def confirm_size(mod, bins, exm):
     """C19: the (up to two) evaluations replay natively exactly as predicted; the violation is re-established from the
     native trace (an internal error / panic returned by a call) or, for the other oracles, by re-running the monitors on
@@ -288,6 +312,11 @@ def confirm_size(mod, bins, exm):
     if not exm.get('scenario'):
         return False, 'no scenario', []
     sc1 = S.Scenario.from_json(exm['scenario'])
+    if 'did not terminate within the step budget' in exm['what']:
+        last = S.Scenario.from_json(exm['scenario2']) if exm.get('chain') else sc1
+        if native_hangs(bins, last):
+            return True, 'reproduced', ['native replay of the scenario did not finish within 40 s (the MIR executor exceeded its per-event block budget)']
+        return False, 'the real crate finishes the scenario', []
     n1, err = native_checked(mod, bins, sc1)
     if n1 is None:
         return False, err, []
@@ -364,9 +393,14 @@ def finish(prop, tier, seed, out, outdir):
         u = out['unconfirmed'][0]
         p = os.path.join(outdir, 'unconfirmed.json')
         json.dump(out['unconfirmed'], open(p, 'w'), indent=1)
-        print('INCONCLUSIVE property=%s: %d counterexample(s) did not reproduce on the real crate (%s); see %s' % (
-            prop, len(out['unconfirmed']), u['why'][:300], p))
-        rc = 2
+        if out['confirmed']:
+            # a violation that did reproduce is reported as such; the ones that did not are listed for the record
+            print('note: %d further counterexample(s) did not reproduce on the real crate (%s); see %s' % (
+                len(out['unconfirmed']), u['why'][:200], p))
+        else:
+            print('INCONCLUSIVE property=%s: %d counterexample(s) did not reproduce on the real crate (%s); see %s' % (
+                prop, len(out['unconfirmed']), u['why'][:300], p))
+            rc = 2
     seen = set()
     for k in out['known']:
         if k['known'] in seen:
